@@ -23,6 +23,7 @@ from .core import ctx, Unsupported
 from .values import Sym, SymInt
 
 _blob_ids = itertools.count()
+ITER_INTERP = [None]      # the interpreter whose loop bound governs iteration over ropes
 
 
 def _t(x):
@@ -106,7 +107,16 @@ class Slice(object):
         return self.len
 
     def whole(self):
-        return _const(self.off) == 0 and z3.eq(_simp(self.len), _simp(self.base.length))
+        if _const(self.off) == 0 and z3.eq(_simp(self.len), _simp(self.base.length)):
+            return True
+        # semantic check under the current path condition
+        if _const(self.off) != 0 or self.base.origin is None or _const(self.len) is None:
+            return False
+        try:
+            ok, _ = ctx().must_hold(z3.And(self.off == 0, self.len == self.base.length))
+        except Unsupported:
+            return False
+        return ok
 
     def __repr__(self):
         return "Slice(%s,%s,%s)" % (self.base.name, self.off, self.len)
@@ -303,9 +313,20 @@ class Rope(Sym):
 
     def sym_iter(self):
         n = _const(self.length_term())
-        if n is None:
-            raise Unsupported("iteration over a rope of symbolic length")
         r = self
+        if n is None:
+            # symbolic length: unroll under the interpreter's loop bound
+            interp = ITER_INTERP[0]
+            k = 0
+            while ctx().branch(r.length_term() > 0, "rope-iter"):
+                k += 1
+                if interp is None or k > interp.loop_bound:
+                    if interp is None:
+                        raise Unsupported("iteration over a rope of symbolic length")
+                    interp.bound_hit("iteration over a rope needs more than %d steps" % interp.loop_bound)
+                one, r = r.split_at(1)
+                yield V.wrap(byte_term(one))
+            return
         for _ in range(n):
             one, r = r.split_at(1)
             yield V.wrap(byte_term(one))
@@ -397,7 +418,7 @@ def byte_term(r):
         return s.value
     c = ctx()
     e = s.base.cont(s.off)
-    c.pc.append(z3.And(e >= 0, e <= 255))   # contract of a byte; cannot make pc infeasible
+    c.add_fact(z3.And(e >= 0, e <= 255))   # contract of a byte; cannot make pc infeasible
     return e
 
 
@@ -435,6 +456,15 @@ def rope_eq(a, b):
             sa.pop(0)
             sb.pop(0)
             continue
+        if isinstance(x, Slice) and isinstance(y, Slice) and len(sa) == 1 and len(sb) == 1 and not conj \
+                and x.base.origin is None and y.base.origin is None \
+                and _const(x.off) == 0 and _const(y.off) == 0 and z3.eq(x.len, x.base.length) and z3.eq(y.len, y.base.length):
+            # two different whole blobs with unconstrained content: their equality is an
+            # uninterpreted (symmetric) predicate of the two blobs, implying equal lengths
+            n1, n2 = sorted([x.base.name, y.base.name])
+            e = z3.Bool("blob_eq(%s,%s)" % (n1, n2))
+            ctx().assume(z3.And(z3.Implies(e, x.len == y.len), z3.Implies(z3.And(x.len == 0, y.len == 0), e)))
+            return V.wrap(e)
         if isinstance(x, Field) and isinstance(y, Field) and x.width == y.width:
             conj.append(x.value == y.value)
             sa.pop(0)
@@ -463,10 +493,14 @@ def _slow_eq(a, b):
     if na is None or nb is None:
         if not ctx().branch(a.length_term() == b.length_term(), "rope-eq-len"):
             return False
-        na = _const(a.length_term())
-        if na is None:
+        if na is None and nb is not None:
+            a = _fix_len(a, nb)
+            na = nb
+        elif nb is None and na is not None:
+            b = _fix_len(b, na)
+            nb = na
+        else:
             raise Unsupported("equality of structurally different ropes of symbolic length: %r vs %r" % (a, b))
-        nb = na
     if na != nb:
         return False
     if na > 64:
@@ -478,6 +512,31 @@ def _slow_eq(a, b):
         y, rb = rb.split_at(1)
         conj.append(byte_term(x) == byte_term(y))
     return V.wrap(z3.And(*conj)) if conj else True
+
+
+def _fix_len(r, k):
+    """r is known (by the path condition) to have length k: rewrite a single
+    blob slice so that its length is the constant"""
+    if len(r.segs) == 1 and isinstance(r.segs[0], Slice):
+        s = r.segs[0]
+        return Rope((Slice(s.base, s.off, k),))
+    raise Unsupported("cannot fix the length of %r" % (r,))
+
+
+def _fix_total(r, k):
+    """r is known to have total length k: if exactly one segment has a
+    non-constant length, make it constant"""
+    var = [i for i, s in enumerate(r.segs) if _const(s.length()) is None]
+    if len(var) != 1:
+        return r
+    rest = sum(_const(s.length()) for i, s in enumerate(r.segs) if i != var[0])
+    s = r.segs[var[0]]
+    segs = list(r.segs)
+    if k - rest == 0:
+        del segs[var[0]]
+    else:
+        segs[var[0]] = Slice(s.base, s.off, k - rest)
+    return Rope(segs)
 
 
 class RopeIO(object):
@@ -500,6 +559,11 @@ class RopeIO(object):
             return out.maybe_concrete()
         if c.branch(n >= ln, "read-short"):
             out, self.rope = self.rope, Rope(())
+            k = _const(n)
+            if k is not None and k <= 16 and _const(ln) is None:
+                # short read of a small request: make the length explicit
+                j = c.decide([ln == j for j in range(k + 1)], "read-len")
+                out = _fix_total(out, j)
             return out.maybe_concrete()
         out, self.rope = self.rope.split_at(n)
         return out.maybe_concrete()
